@@ -113,6 +113,31 @@ def run(ck):
             ck.verdict(bool(none) and set(ex) <= set(none), "2", "T5-loop-exit", di, "exits-only-on-exhaustion", "the loop is left only when the list is exhausted", "the idle loop can be left early (the remaining idles are dropped without running)", site=di.where(h))
             bad = T.t2_all_exits(di, [x for _, x in some], [d.bb], exits={h})
             ck.verdict(bad is None, "2", "T2-all-exits", di, "each-entry=>dispatch", "every entry is dispatched", "an entry can be skipped", site=di.where(d.bb))
+        # every dispatch looks at the list: the only way around the take is "the list is empty" (tested on the list itself).
+        # A separate "idles pending" flag is accepted only if it cannot be wiped after an idle inserted by an idle set
+        # it: every clearing store lies before the callbacks run, and insert_idle sets it on every path.
+        excused = []
+        for c in T.calls(di, name="is_empty"):
+            if not di.is_cleanup(c.bb) and c.args and T.path_has(di, c.args[0], ".idles"):
+                tr_, fa_ = T.bool_split(di, c.bb)
+                excused += tr_
+        flag_reads = [c for c in di.calls() if c.name in ("get", "load") and c.args and not di.is_cleanup(c.bb) and any(x in f.types[f.peel_refs(op_place(c.args[0])["t"])]["s"] for x in ("Cell<bool>", "AtomicBool", "Atomic<bool>"))]
+        for c in flag_reads:
+            fld = [e for r_, p_ in di.resolve(c.args[0]) for e in p_ if isinstance(e, str) and e.startswith(".") and e not in (".deref", ".inner", ".handle")]
+            fld = fld[-1] if fld else None
+            if fld is None:
+                continue
+            clears = [w for w in di.calls() if w.name in ("set", "store", "replace", "swap", "take") and w.args and not di.is_cleanup(w.bb) and T.path_has(di, w.args[0], fld) and (w.name == "take" or (len(w.args) > 1 and T.const_value(di, w.args[1], 8) == 0))]
+            late = [w for w in clears if any(w.bb in di.reachable([d_.to]) for d_ in disp if d_.to is not None)]
+            sets_ok = False
+            if ii is not None:
+                st_ = [w for w in ii.calls() if w.name in ("set", "store", "replace", "swap") and len(w.args) > 1 and not ii.is_cleanup(w.bb) and T.path_has(ii, w.args[0], fld) and T.const_value(ii, w.args[1], 8) == 1]
+                sets_ok = bool(st_) and T.t2_all_exits(ii, [0], [w.bb for w in st_]) is None
+            if clears and not late and sets_ok:
+                tr_, fa_ = T.bool_split(di, c.bb)
+                excused += fa_
+        bad = T.t2_all_exits(di, [0], [takes[0].bb], removed_edges=excused)
+        ck.verdict(bad is None, "2", "T2-all-exits", di, "every-dispatch-looks-at-the-list", "the only way around taking the idle list is the list being empty", "dispatch_idles can return without looking at the idle list although it is not (known to be) empty: the early return is decided by something else than the list itself (a 'pending' flag that a later store can wipe after an idle inserted by an idle has set it): queued idles are skipped by this and possibly every later dispatch", site=di.where(), path=path_descr(di, bad) if bad else None)
         back = [cs for cs in di.calls() if cs.args and not di.is_cleanup(cs.bb) and cs.bb != takes[0].bb and cs.name in ("replace", "swap", "clear", "truncate", "append", "extend", "push") and T.path_has(di, cs.args[0], ".idles") and cs.bb in di.reachable([takes[0].to])] + [i for i, j, st in di.statements() if st["s"] == "assign" and st["pl"]["p"] and T.path_has(di, st["pl"], ".idles") and i in di.reachable([takes[0].to]) and not di.is_cleanup(i)]
         ck.verdict(not back, "2", "T7-who-may-write", di, "list-not-overwritten-after-take", "after the list was taken dispatch_idles never writes it again (idles queued by the running idles survive)", "dispatch_idles writes the idle list again after having taken it: idles inserted by the idles that just ran are overwritten and never run", site=di.where(takes[0].bb))
         gf = ck.guardflow(di)
